@@ -31,6 +31,12 @@ structure Fns (α : Type) where
   atan2 : α → α → α
   pow : α → α → α
 
+/-- the scalar `MathToolbox<Scalar>` predicates used by `MathToolbox<Evaluation>::isnan / isfinite / isSame` -/
+structure Preds (α : Type) where
+  isnan : α → Bool
+  isfinite : α → Bool
+  isSame : α → α → α → Bool
+
 /-- storage array -> slot function (out-of-range slots read as 0; never happens for
 well-sized arrays) -/
 def toFn {α : Type} [OfNat α 0] {k : Nat} (a : Array α) : Fin k → α := fun i => a.getD i.val 0
